@@ -2669,17 +2669,17 @@ func (dsc *dataStoreCommand) setOperationCount(
 func (dsc *dataStoreCommand) diffWorker(firstKey string, keyNames ...string) (d *redisDict, wrongType bool) {
 	sk, objExists := dsc.getKeyObjectUnlocked(firstKey)
 	if !objExists {
+		// a missing first key is an empty set; the other keys are still type checked
 		d = newRedisDict()
-		return
-	}
+	} else {
+		m := sk.getSet()
+		if m == nil {
+			wrongType = true
+			return
+		}
 
-	m := sk.getSet()
-	if m == nil {
-		wrongType = true
-		return
+		d = m.clone()
 	}
-
-	d = m.clone()
 
 	for _, keyName := range keyNames {
 		sk2, objExists := dsc.getKeyObjectUnlocked(keyName)
